@@ -49,6 +49,14 @@ class ContractError(Exception):
     pass
 
 
+class UnknownName(ContractError):
+    """a contract expression mentions a program variable that is not bound on this path"""
+
+
+class MissingSnapshot(ContractError):
+    """at(label, ...) on a path that never passed the labelled site"""
+
+
 # ----------------------------------------------------------------------------- values
 class AV(object):
     """array value: z3 term + shape (tuple of z3 Int) + element kind ('int'|'real'|'cplx')."""
@@ -156,6 +164,7 @@ class State(object):
         self.heap = {}
         self.pc = []
         self.fresh_locs = set()   # locations allocated by this function (not parameters)
+        self.snaps = {}           # label -> (env, heap): ghost snapshots ('loopK.pre', 'loopK.head') for at(label, expr)
 
     def copy(self):
         s = State()
@@ -163,6 +172,7 @@ class State(object):
         s.heap = dict(self.heap)
         s.pc = list(self.pc)
         s.fresh_locs = set(self.fresh_locs)
+        s.snaps = dict(self.snaps)
         return s
 
     def alloc(self, obj):
@@ -314,11 +324,24 @@ class SpecTheory(object):
                 args = e.children()
                 if name in self.macros:
                     if has_var(e, 0, hv):
+                        # an application under a binder: add the fully general definition once (macros are not
+                        # recursive in themselves, so the general axiom cannot loop)
+                        if ('general', name) not in seen_terms:
+                            seen_terms[('general', name)] = True
+                            consts, cv, elt = self.macros[name]
+                            gs_ = [fresh('m', c.sort()) for c in consts]
+                            q = fresh('u', I)
+                            app = e.decl()(*gs_)
+                            inst = z3.substitute(elt, *([(c, g) for c, g in zip(consts, gs_)] + [(cv, q)]))
+                            out.append(z3.ForAll(gs_ + [q], z3.Select(app, q) == inst, patterns=[z3.Select(app, q)]))
                         continue
                     consts, cv, elt = self.macros[name]
                     q = fresh('u', I)
                     inst = z3.substitute(elt, *([(c, a) for c, a in zip(consts, args)] + [(cv, q)]))
-                    out.append(z3.ForAll([q], z3.Select(e, q) == inst, patterns=[z3.Select(e, q)]))
+                    try:
+                        out.append(z3.ForAll([q], z3.Select(e, q) == inst, patterns=[z3.Select(e, q)]))
+                    except z3.Z3Exception:
+                        out.append(z3.ForAll([q], z3.Select(e, q) == inst))
                     new.append(inst)
                     continue
                 consts, body = self.defs[name]
@@ -351,7 +374,10 @@ class SpecTheory(object):
                 seen_terms[key] = True
                 app = e.decl()(*actual)
                 inst = z3.substitute(body, *[(c, a) for c, a in zip(consts, actual)])
-                out.append(z3.ForAll(qs, app == inst, patterns=[app]))
+                try:
+                    out.append(z3.ForAll(qs, app == inst, patterns=[app]))
+                except z3.Z3Exception:
+                    out.append(z3.ForAll(qs, app == inst))       # e.g. an if-then-else inside the would-be pattern
             frontier = new
             if not new:
                 break
@@ -456,10 +482,10 @@ class SpecEval(object):
         if n.id in self.bound:
             return self.bound[n.id]
         if n.id not in self.env:
-            raise ContractError('unknown name %r in contract expression' % n.id)
+            raise UnknownName('unknown name %r in contract expression' % n.id)
         v = self.env[n.id]
         if isinstance(v, Unbound):
-            raise ContractError('name %r is unbound here (%s)' % (n.id, v.why))
+            raise UnknownName('name %r is unbound here (%s)' % (n.id, v.why))
         return self.resolve(v)
 
     def ev_Tuple(self, n):
@@ -539,23 +565,34 @@ class SpecEval(object):
             raise ContractError('only plain function calls in contract expressions')
         f = n.func.id
         if f in ('forall', 'exists'):
-            # forall(k, lo, hi, body)
-            if len(n.args) != 4 or not isinstance(n.args[0], ast.Name):
-                raise ContractError('%s(k, lo, hi, body)' % f)
-            k = n.args[0].id
-            lo = as_num(self.ev(n.args[1]))
-            hi = as_num(self.ev(n.args[2]))
-            kv = fresh(k, I)
+            # forall(k, lo, hi, body); directly nested quantifiers of the same kind are merged into one binder list
+            # (one multi-variable quantifier with one multi-pattern instead of nested ones)
+            kvs, rngs = [], []
             saved = dict(self.bound)
-            self.bound[k] = kv
+            node = n
             try:
-                body = as_bool(self.ev(n.args[3]))
+                while True:
+                    if len(node.args) != 4 or not isinstance(node.args[0], ast.Name):
+                        raise ContractError('%s(k, lo, hi, body)' % f)
+                    k = node.args[0].id
+                    lo = as_num(self.ev(node.args[1]))
+                    hi = as_num(self.ev(node.args[2]))
+                    kv = fresh(k, I)
+                    self.bound[k] = kv
+                    kvs.append(kv)
+                    rngs += [lo <= kv, kv < hi]
+                    inner = node.args[3]
+                    if isinstance(inner, ast.Call) and isinstance(inner.func, ast.Name) and inner.func.id == f:
+                        node = inner
+                        continue
+                    body = as_bool(self.ev(inner))
+                    break
             finally:
                 self.bound = saved
-            rng = z3.And(lo <= kv, kv < hi)
+            rng = z3.And(*rngs)
             if f == 'forall':
-                return z3.ForAll([kv], z3.Implies(rng, body))
-            return z3.Exists([kv], z3.And(rng, body))
+                return z3.ForAll(kvs, z3.Implies(rng, body))
+            return z3.Exists(kvs, z3.And(rng, body))
         if f in ('fresh_loc', 'same_loc'):
             refs = [self.eval_ref(a) for a in n.args]
             if any(r is None for r in refs):
@@ -563,6 +600,15 @@ class SpecEval(object):
             if f == 'fresh_loc':
                 return z3.BoolVal(refs[0].loc in getattr(self, 'fresh_locs', ()) and refs[0].loc not in getattr(self, 'entry_locs', ()))
             return z3.BoolVal(refs[0].loc == refs[1].loc)
+        if f == 'at':
+            label = n.args[0].value if isinstance(n.args[0], ast.Constant) else None
+            snaps = getattr(self, 'snaps', {})
+            if label not in snaps:
+                raise MissingSnapshot('at(%r, ...): no such snapshot here' % (label,))
+            env_, heap_ = snaps[label]
+            sub = SpecEval(self.th, env_, heap_, self.old_env, self.old_heap, self.preds, self.bound)
+            sub.snaps = snaps
+            return sub.ev(n.args[1])
         if f == 'old':
             if self.old_env is None:
                 raise ContractError('old() not available here')
